@@ -178,11 +178,11 @@ func pinForKey(c *run.Ctx) {
 }
 
 func pins(c *run.Ctx, next func() int) {
+	// every shard runs the pinned cases first (they are few): a regression of a
+	// repaired defect is then the first thing each shard reports, under the
+	// fingerprint of its class
 	for _, p := range pinList() {
-		i := next()
-		if !c.Mine(i) {
-			continue
-		}
+		next()
 		c.Begin(&Case{Kind: "pin", Name: p.name}, 60*time.Second)
 		p.f(c)
 		c.End()
